@@ -43,6 +43,7 @@ class Trace:
         self.exception = None
         self.control = None
         self.depth_diag = 0
+        self.diag_ops = []      # DiagnosticInfo method calls in order: "save_info_from_control", "update_ratio", ...
         self.in_soft = 0
         self.soft_evals = 0
         self.h = None
@@ -372,9 +373,22 @@ def install(dfols):
         finally:
             if t is not None:
                 t.depth_diag -= 1
+                t.diag_ops.append("save_info_from_control")
                 t.emit("diag", int(nruns), int(iter_this_run), int(control.nf), int(control.nx), control.delta, control.rho,
                        control.rhoend, int(control.model.npt()))
     DI.save_info_from_control = saveinfo
+
+    def _wrap_update(name):
+        real = getattr(DI, name)
+
+        def upd(self, *a, **k):
+            t = _sink()
+            if t is not None:
+                t.diag_ops.append(name)     # recorded BEFORE the call: an IndexError inside it is then visible as the last op
+            return real(self, *a, **k)
+        setattr(DI, name, upd)
+    for _name in [m for m in vars(DI) if m.startswith("update_") and callable(getattr(DI, m))]:
+        _wrap_update(_name)
 
     # ---- solve_main ------------------------------------------------------------------------------------
     real_main = S.solve_main
